@@ -439,10 +439,10 @@ theorem eo_allocateTrackedQubit (n : String) : EnvObl (allocateTrackedQubit n) :
 theorem eo_ensureQubitExists (i : Int) (p : Parse.P) : EnvObl (ensureQubitExists i p) := by envobl ensureQubitExists
 theorem eo_ensureQubitActive (i : Int) (p : Parse.P) : EnvObl (ensureQubitActive i p) := by
   envobl ensureQubitActive ensureQubitExists
-theorem eo_simReset (q : Int) : EnvObl (simReset q) := by envobl simReset nextDraw
+theorem eo_resetQubit (q : Int) (p : Parse.P) : EnvObl (resetQubit q p) := by
+  envobl resetQubit ensureQubitExists simReset nextDraw unmarkMeasured
 theorem eo_simGate (op : QOp Float) : EnvObl (simGate op) := by envobl simGate
 theorem eo_simCx (c t : Int) : EnvObl (simCx c t) := by envobl simCx
-theorem eo_unmarkMeasured (i : Int) : EnvObl (unmarkMeasured i) := by envobl unmarkMeasured
 theorem eo_measureQubit (q : Int) (p : Parse.P) : EnvObl (measureQubit q p) := by
   envobl measureQubit ensureQubitActive ensureQubitExists simMeasure nextDraw markMeasured setLastMeasurement
 
@@ -463,12 +463,10 @@ theorem frameInd_closed : Closed (fun {α} (m : EM α) => FrameInd m) where
   lookupFnM := fun n => FrameInd.ofEnvObl (eo_lookupFnM n)
   echoLine := fun l => FrameInd.ofEnvObl (eo_echoLine l)
   allocateTrackedQubit := fun n => FrameInd.ofEnvObl (eo_allocateTrackedQubit n)
-  ensureQubitExists := fun i p => FrameInd.ofEnvObl (eo_ensureQubitExists i p)
   ensureQubitActive := fun i p => FrameInd.ofEnvObl (eo_ensureQubitActive i p)
-  simReset := fun q => FrameInd.ofEnvObl (eo_simReset q)
+  resetQubit := fun q p => FrameInd.ofEnvObl (eo_resetQubit q p)
   simGate := fun op => FrameInd.ofEnvObl (eo_simGate op)
   simCx := fun c t => FrameInd.ofEnvObl (eo_simCx c t)
-  unmarkMeasured := fun i => FrameInd.ofEnvObl (eo_unmarkMeasured i)
   measureQubit := fun q p => FrameInd.ofEnvObl (eo_measureQubit q p)
 
 /-- every expression, statement and call is frame independent -/
